@@ -86,6 +86,11 @@ def canon_unordered(t):
     return canon(t)
 
 
+class NoClaim(Exception):
+    """The statement does not decide this load (an included document that parses but is not a map; sibling includes of
+    one scope that overlap or name each other, whose relative precedence is not stated)."""
+
+
 class IncludeScenario(Scenario):
     name = "includes"
     max_ops = 12
@@ -365,7 +370,25 @@ class IncludeScenario(Scenario):
                 raise LookupError("unreadable include")
             child = ops.parse_doc(fmt, st.world.peek(p), st.opts) if fmt != "xml" else self.xml_tree(st.world.peek(p), st.opts)
             if not isinstance(child, dict):
-                raise LookupError("include is not a map")
+                raise NoClaim("include is not a map")
+            used = [i for i in s["includes"] if tree.get(i["key"]) is not None]
+            if len(used) > 1:
+                # several includes of one scope in play: which of them wins on a key they share (or whether one may redirect
+                # another) is not stated -- claimed only when they are independent of each other
+                mine = set(child) - {inc["key"]}
+                for other in used:
+                    if other is inc:
+                        continue
+                    if other["key"] in child:
+                        raise NoClaim("an included file names a sibling include")
+                    q = self.resolve(st, other, tree.get(other["key"]))
+                    if q and q in st.world.files:
+                        try:
+                            oc = ops.parse_doc(fmt, st.world.peek(q), st.opts) if fmt != "xml" else self.xml_tree(st.world.peek(q), st.opts)
+                        except Exception:  # noqa: BLE001
+                            oc = None
+                        if isinstance(oc, dict) and (mine & (set(oc) - {other["key"]}) or inc["key"] in oc):
+                            raise NoClaim("sibling includes overlap")
             trace.append(p)
             tree = ref_merge(tree, child)
         for k, sub in s["subs"].items():
@@ -442,6 +465,14 @@ class IncludeScenario(Scenario):
             ref_err = None
         except SeamGap:
             raise
+        except NoClaim as exc:
+            rec.log("load", fmt, "no-claim", str(exc))
+            rec.probe("include-load-not-judged:" + str(exc).replace(" ", "-"))
+            st.open_err_path = None
+            if fault:
+                w.unreadable.discard(fault["path"])
+                w.dirs.discard(fault["path"])
+            return
         except Exception as exc:  # noqa: BLE001  (reference could not resolve/parse an include)
             want, ref_err = None, exc
         if self.prop == "C06":
